@@ -153,7 +153,7 @@ func (c *Ctl) wait(id int, block bool) Status {
 	select {
 	case s := <-t.notify:
 		return c.note(t, s)
-	case <-time.After(2 * time.Millisecond):
+	case <-time.After(300 * time.Microsecond):
 	}
 	// phase 2: positive observation of "blocked on a mutex of the code under test" (goroutine state),
 	// never a guess from elapsed time; Grace only bounds how long a thread may stay unaccounted for
@@ -169,7 +169,7 @@ func (c *Ctl) wait(id int, block bool) Status {
 			select {
 			case s := <-t.notify:
 				return c.note(t, s)
-			case <-time.After(time.Millisecond):
+			case <-time.After(200 * time.Microsecond):
 			}
 			if onMutex(g) {
 				return Status{Kind: "blocked"}
@@ -178,20 +178,27 @@ func (c *Ctl) wait(id int, block bool) Status {
 		if time.Now().After(end) {
 			return Status{Kind: "stuck"}
 		}
-		time.Sleep(300 * time.Microsecond)
+		time.Sleep(100 * time.Microsecond)
 	}
 }
 
+var (
+	dumpMu  sync.Mutex
+	dumpBuf = make([]byte, 1<<18)
+)
+
 // onMutex reports whether goroutine g is waiting for a sync.Mutex / semaphore.
 func onMutex(g uint64) bool {
-	buf := make([]byte, 1<<20)
+	dumpMu.Lock()
+	defer dumpMu.Unlock()
+	var buf []byte
 	for {
-		n := runtime.Stack(buf, true)
-		if n < len(buf) {
-			buf = buf[:n]
+		n := runtime.Stack(dumpBuf, true)
+		if n < len(dumpBuf) {
+			buf = dumpBuf[:n]
 			break
 		}
-		buf = make([]byte, 2*len(buf))
+		dumpBuf = make([]byte, 2*len(dumpBuf))
 	}
 	hdr := []byte("goroutine " + strconv.FormatUint(g, 10) + " [")
 	i := bytes.Index(buf, hdr)
